@@ -187,6 +187,7 @@ Definition truthy (v : val) : bool :=
   | VNone => false | VBool b => b | VInt z => negb (Z.eqb z 0) | VStr s => negb (String.eqb s "")
   | VList _ xs | VTuple _ xs | VSet _ _ xs => match xs with [] => false | _ => true end
   | VDict _ _ kvs => match kvs with [] => false | _ => true end
+  | VSkip | VStop => false          (* boltons sentinels define __bool__ as False *)
   | _ => true end.
 
 (* forget identity labels: value-level comparison *)
